@@ -292,6 +292,36 @@ Proof.
   destruct (znth P _); [|discriminate]. destruct (overlaps _ _); [auto|discriminate].
 Qed.
 
+(* resolveForwardEffectiveDomainTR as a recursion over the following domains: where the chain
+   of immediately contiguous domains inside the iterator bounds B ends *)
+Fixpoint chain_end (B : tr) (cur_end : Z) (rest : list dom) : Z :=
+  match rest with
+  | [] => cur_end
+  | d :: r => if overlaps (d_tr d) B && (cur_end =? dom_s d) then chain_end B (dom_e d) r else cur_end
+  end.
+
+Lemma fwd_eff_go_end B : forall rest pre cur fuel b n,
+  (length rest < fuel)%nat -> t_e b = dom_e cur ->
+  t_e (snd (fst (fwd_eff_go fuel (pre ++ cur :: rest) (DI B (zlen pre) cur true) b n))) =
+  chain_end B (dom_e cur) rest.
+Proof.
+  induction rest as [|d1 r IH]; intros pre cur fuel b n Hf Hb; (destruct fuel as [|f]; [lia|]); simpl.
+  - rewrite (di_next_last (pre ++ [cur]) pre cur B eq_refl). simpl. exact Hb.
+  - rewrite (di_next_some (pre ++ cur :: d1 :: r) pre cur d1 r B eq_refl).
+    destruct (overlaps (d_tr d1) B); simpl; [|exact Hb].
+    unfold di_tr at 1 2. simpl di_cur. unfold dom_e, dom_s.
+    destruct (t_e (d_tr cur) =? t_s (d_tr d1)) eqn:E; simpl; [|exact Hb].
+    rewrite (app_cons_assoc pre cur (d1 :: r)), <- (zlen_snoc pre cur).
+    unfold di_tr. simpl di_cur.
+    rewrite IH; [reflexivity|simpl in Hf; lia|reflexivity].
+Qed.
+
+Lemma fwd_eff_end B pre cur rest :
+  t_e (snd (fst (fwd_eff (pre ++ cur :: rest) (DI B (zlen pre) cur true)))) = chain_end B (dom_e cur) rest.
+Proof.
+  unfold fwd_eff. apply fwd_eff_go_end; [rewrite app_length; simpl; lia|reflexivity].
+Qed.
+
 (* ------------------------------------------------------------------ Distance *)
 (* the traversal loop of Distance as a recursion over the domains after the current one *)
 Fixpoint dloop (B eff : tr) (te : Z) (rest : list dom) (s2f : approx) (tot : Z) (se : bool)
@@ -390,7 +420,7 @@ Qed.
 Local Opaque dist_loop.
 Lemma distance_unfold P pre d0 rest ds te :
   widx P -> P = pre ++ d0 :: rest -> dom_s d0 <= ds < dom_e d0 -> ds < te ->
-  exists eff, t_s eff = dom_s d0 /\
+  exists eff, t_s eff = dom_s d0 /\ t_e eff = chain_end (TR ds te) (dom_e d0) rest /\
   distance P (TR ds te) true =
     if negb (contains_range eff (TR ds te)) then Err EDisc else
     let s := isearch_result ds (d_data d0) in
@@ -407,8 +437,9 @@ Proof.
   rewrite (seek_ge_inside P pre d0 rest (TR ds te) zero_dom ds (proj1 Hw) HP Hin Ho).
   simpl negb. cbv iota.
   pose proof (fwd_eff_start P (DI (TR ds te) (zlen pre) d0 true)) as [Hs Hb].
-  destruct (fwd_eff P (DI (TR ds te) (zlen pre) d0 true)) as [[it1 eff] n]. simpl in Hs, Hb.
-  exists eff. split; [exact Hs|].
+  pose proof (fwd_eff_end (TR ds te) pre d0 rest) as He. rewrite <- HP in He.
+  destruct (fwd_eff P (DI (TR ds te) (zlen pre) d0 true)) as [[it1 eff] n]. simpl in Hs, Hb, He.
+  exists eff. split; [exact Hs|]. split; [exact He|].
   rewrite Hb. simpl t_s.
   rewrite (di_seek_ge_ok_indep P (DI (TR ds te) 0 zero_dom false) it1 ds _ (eq_sym Hb)
              (seek_ge_inside P pre d0 rest (TR ds te) zero_dom ds (proj1 Hw) HP Hin Ho)).
@@ -463,7 +494,7 @@ Proof.
       rewrite Hc in Hd. simpl in Hd. discriminate. }
   simpl in Hu. destruct Hu as (d0 & Hd0 & Hin).
   destruct (widx_find P j d0 Hd0) as (pre & rest & HP & Hlen).
-  destruct (distance_unfold P pre d0 rest ds te Hw HP Hin Hlt) as (eff & Heff & Heq).
+  destruct (distance_unfold P pre d0 rest ds te Hw HP Hin Hlt) as (eff & Heff & _ & Heq).
   rewrite Heq in Hd. clear Heq.
   destruct (negb (contains_range eff (TR ds te))); [discriminate|]. cbv zeta in Hd.
   destruct (split_d0 P pre rest d0 HP Hw) as [_ Hne].
